@@ -61,6 +61,26 @@ def run_bounded(chk):
             checks += [(f"volume(r={r:.3g})", sp_.volume, V + S * r + 4 * math.pi * Mc * r**2 + 4 / 3 * math.pi * r**3),
                        (f"surface_area(r={r:.3g})", sp_.surface_area, S + 8 * math.pi * Mc * r + 4 * math.pi * r**2),
                        (f"mean_curvature(r={r:.3g})", sp_.mean_curvature, Mc + r)]
+        # the same object after reads and public resizes: every getter is Steiner's polynomial of the *current* core and radius
+        r = 0.3 * size
+        sp_ = cox.shapes.ConvexSpheropolyhedron(off, r)
+        _ = (sp_.volume, sp_.surface_area, sp_.mean_curvature)
+        sc_tot = 1.0
+        for step, target in (("volume", 2.5 * sp_.volume), ("surface_area", 0.3 * sp_.surface_area), ("mean_curvature", 1.7 * sp_.mean_curvature)):
+            n_eval += 1
+            setattr(sp_, step, target)
+            k = float(sp_.radius) / r                       # the public radius tells the accumulated scale
+            Vk, Sk, Mk, rk = V * k**3, S * k**2, Mc * k, r * k
+            checks += [(f"after_set_{step}:{step}==target", getattr(sp_, step), target),
+                       (f"after_set_{step}:volume", sp_.volume, Vk + Sk * rk + 4 * math.pi * Mk * rk**2 + 4 / 3 * math.pi * rk**3),
+                       (f"after_set_{step}:surface_area", sp_.surface_area, Sk + 8 * math.pi * Mk * rk + 4 * math.pi * rk**2),
+                       (f"after_set_{step}:mean_curvature", sp_.mean_curvature, Mk + rk),
+                       (f"after_set_{step}:core_volume", sp_.polyhedron.volume, Vk)]
+        sp_.radius = 2 * float(sp_.radius)
+        n_eval += 1
+        rk = float(sp_.radius)
+        checks += [("after_radius_change:volume", sp_.volume, Vk + Sk * rk + 4 * math.pi * Mk * rk**2 + 4 / 3 * math.pi * rk**3),
+                   ("after_radius_change:surface_area", sp_.surface_area, Sk + 8 * math.pi * Mk * rk + 4 * math.pi * rk**2)]
         for nm, got, want in checks:
             if not oracle.close(got, want, 1e-9):
                 fails.append((f"{name}:{nm}", {"points": off, "observed": float(got), "expected": float(want)}))
@@ -84,7 +104,7 @@ def run_bounded(chk):
     if not fails:
         chk.record("bounded:steiner", fkey, "bounded-pass", "independent-oracle", kind="bounded", detail=f"{n_eval} shapes")
     chk.bounded.append({"clause": "Steiner polynomials and curvature descriptors with V, S, M computed independently from exact hull facets",
-                        "bound": "named convex solids with <= 12 vertices x radii {0, 1e-3, 0.3, 100} x size; 8 convex polygons x radii {0, 1e-3, 0.5, 50}",
+                        "bound": "named convex solids with <= 12 vertices x radii {0, 1e-3, 0.3, 100} x size, plus one history per solid (reads; set volume, surface_area, mean_curvature; change radius) re-checked after every step; 8 convex polygons x radii {0, 1e-3, 0.5, 50}",
                         "evaluations": n_eval, "distinct_nontrivial": n_eval,
                         "rule": "distinct = (core, radius)", "samples": [{"core": "cube", "radius": 0.3}],
                         "failures": len(fails), "exhaustive": False})
